@@ -344,3 +344,63 @@ Proof.
     unfold handle_read. specialize (Hrd i r idx Hi Hidx). simpl in Hrd. rewrite Hrd.
     unfold resp_values. now rewrite (map_nth_error _ _ _ Ef).
 Qed.
+
+(* ------------------------------------------------------------------ retry loop (min_fidelity_all_at_end) *)
+Lemma store_all_length : forall ok fields, List.length fields = ok ->
+  forall rs a N a', List.length a = N * ok -> List.length rs <= N ->
+  store_all ok fields a 0 rs = Some a' -> List.length a' = N * ok.
+Proof.
+  intros ok fields Hf rs a N a' Ha Hn Hs.
+  destruct (store_all_spec ok fields Hf rs a 0 N Ha ltac:(lia)) as [a2 [H1 [H2 _]]].
+  rewrite H1 in Hs. inversion Hs. now subst.
+Qed.
+
+Lemma retry_run_accepted : forall ok fields stride n acc undef, List.length fields = ok -> stride = ok ->
+  forall tries attempts arr a rs,
+  List.length arr = n * ok ->
+  (forall r, In r attempts -> List.length r = n) ->
+  retry_run ok fields acc undef tries arr attempts = Some a ->
+  accepted_attempt acc tries attempts = Some rs ->
+  results_array ok fields stride n rs = Some a /\ List.length rs = n.
+Proof.
+  intros ok fields stride n acc undef Hf Hst. subst stride.
+  induction tries as [|t IH]; intros attempts arr a rs Hlen Hall Hrun Hacc; [discriminate|].
+  cbn [retry_run accepted_attempt] in *. destruct attempts as [|r0 rest]; [discriminate|].
+  unfold undefine_all in Hrun at 1. rewrite Hlen in Hrun.
+  destruct (store_all ok fields (repeat None (n * ok)) 0 r0) as [a1|] eqn:Es; [|discriminate].
+  destruct (acc r0).
+  - inversion Hrun; inversion Hacc; subst. split; [|apply Hall; now left].
+    unfold results_array. now rewrite Nat.mul_comm.
+  - assert (Hl1 : List.length a1 = n * ok).
+    { apply (store_all_length ok fields Hf r0 (repeat None (n * ok)) n a1); auto.
+      - now rewrite repeat_length.
+      - rewrite (Hall r0); [lia|now left]. }
+    apply (IH rest (if undef then undefine_all a1 else a1) a rs); auto.
+    + destruct undef; [unfold undefine_all; now rewrite repeat_length|exact Hl1].
+    + intros r Hr. apply Hall. now right.
+Qed.
+
+Definition retry_handles_at (ok : nat) (fields : list string) (stride : nat)
+           (handle : list (string * nat)) (spec : list (string * string)) (n : nat)
+           (acc : list resp -> bool) (undef : bool) (tries : nat) (attempts : list (list resp)) : Prop :=
+  forall a rs, retry_run ok fields acc undef tries (repeat None (stride * n)) attempts = Some a ->
+    accepted_attempt acc tries attempts = Some rs ->
+    forall i r attr f idx, nth_error rs i = Some r -> In (attr, f) spec ->
+      lookup attr handle = Some idx -> handle_read stride idx a i = Some (Some (r f)).
+
+Theorem retry_handles_read_accepted_attempt : forall ok fields stride handle spec,
+  handles_ok ok fields stride handle spec = true ->
+  forall n acc undef tries attempts,
+  (forall rs, In rs attempts -> List.length rs = n) ->
+  retry_handles_at ok fields stride handle spec n acc undef tries attempts.
+Proof.
+  intros ok fields stride handle spec H n acc undef tries attempts Hall a rs Hrun Hacc.
+  assert (H' := H). unfold handles_ok in H'.
+  apply andb_true_iff in H'. destruct H' as [H' _]. apply andb_true_iff in H'. destruct H' as [Hfl Hst].
+  apply Nat.eqb_eq in Hfl. apply Nat.eqb_eq in Hst.
+  destruct (retry_run_accepted ok fields stride n acc undef Hfl Hst tries attempts (repeat None (stride * n)) a rs)
+    as [Hr Hn]; auto.
+  - rewrite repeat_length. subst stride. lia.
+  - destruct (handles_read_pair_i ok fields stride handle spec H n rs Hn) as [arr [Ha Hh]].
+    rewrite Ha in Hr. inversion Hr; subst. exact Hh.
+Qed.
